@@ -56,6 +56,13 @@ Theorem client_never_panics_partial : forall c tr,
 Proof. exact client_never_panics_partial_proof. Qed.
 Print Assumptions client_never_panics_partial.
 
+(* its hypothesis is satisfiable by an execution that does feed chunks, closes and ends *)
+Example no_feeder_after_close_satisfiable :
+  no_feeder_after_close checked cfg0
+    [ApiStart 1 (OpCallProg 1 false true None) 1; ChunkSend 1 true; ChunkSend 1 false;
+     RouterMsg (RResult 1 [] [VInt 3]); ApiFinish 1; CloseStart 2; RouterMsg RGoodbye].
+Proof. apply nfac_b_sound. vm_compute. reflexivity. Qed.
+
 
 
 (* the only panicking step of the repaired model, precisely *)
